@@ -1831,9 +1831,9 @@ class Tensor:
         #
         # Create new shape list
         #
-        shape = copy.deepcopy(self.getShape())
+        shape = copy.deepcopy(self.getShape(authoritative=True))
 
-        for d in range(levels):
+        for d in range(levels if shape else 0):
             s = shape[depth + d]
             shape[depth + d] = s[0]
             if len(s) == 2:
